@@ -35,7 +35,7 @@ fn fault(rng: &mut Rng, bytes: &[u8]) -> (Vec<u8>, String) {
     let lines: Vec<String> = p.head.lines().map(|s| s.to_string()).collect();
     let numeric: Vec<usize> = lines.iter().enumerate().filter(|(_, l)| l.contains(':') && l.chars().any(|c| c.is_ascii_digit()) && !l.starts_with("HTS_VOICE") && !l.starts_with("FULLCONTEXT") && !l.starts_with("GV_OFF") && !l.starts_with("OPTION")).map(|(i, _)| i).collect();
     let rebuild = |ls: &[String]| -> String { let mut s = ls.join("\n"); s.push('\n'); s };
-    match rng.below(14) {
+    match rng.below(15) {
         0 => {
             // truncation at a section boundary or a random offset
             let all = join(&p);
@@ -87,7 +87,7 @@ fn fault(rng: &mut Rng, bytes: &[u8]) -> (Vec<u8>, String) {
             if cands.is_empty() { return (bytes.to_vec(), "none".into()); }
             let li = *rng.pick(&cands);
             let line = &lines[li];
-            let (k, v) = line.split_once(':').unwrap();
+            let Some((k, v)) = line.split_once(':') else { return (bytes.to_vec(), "none".into()); };
             let first = v.split(',').next().unwrap();
             if let Some((a, b)) = first.split_once('-') {
                 let mut ls = lines.clone();
@@ -164,6 +164,23 @@ fn fault(rng: &mut Rng, bytes: &[u8]) -> (Vec<u8>, String) {
             let ls: Vec<String> = lines.iter().map(|l| if l.starts_with("STREAM_TYPE:") { "STREAM_TYPE:".to_string() } else { l.clone() }).collect();
             p.head = rebuild(&ls);
             (join(&p), "no-streams".into())
+        }
+        13 => {
+            // a tree section ending in newline + one byte >= 0x80 (byte-wise parsers that read it as a char)
+            let cands: Vec<usize> = lines.iter().enumerate().filter(|(_, l)| l.contains("_TREE")).map(|(i, _)| i).collect();
+            if cands.is_empty() { return (bytes.to_vec(), "none".into()); }
+            let line = &lines[*rng.pick(&cands)];
+            let ranges: Vec<&str> = line.split_once(':').map(|(_, v)| v.split(',').collect()).unwrap_or_default();
+            if ranges.is_empty() { return (bytes.to_vec(), "none".into()); }
+            let r = *rng.pick(&ranges);
+            match r.split_once('-').and_then(|(_, b)| b.trim().parse::<usize>().ok()) {
+                Some(end) if end >= 1 && end < p.data.len() => {
+                    p.data[end - 1] = b'\n';
+                    p.data[end] = *rng.pick(&[0x80u8, 0xc3, 0xe3, 0xf0, 0xff]);
+                    (join(&p), "tree-trailing-non-ascii".into())
+                }
+                _ => (bytes.to_vec(), "none".into()),
+            }
         }
         _ => {
             // random bytes inside the data section text/binary
